@@ -22,7 +22,7 @@ open IceModel.AgentCore IceProofs.AgentC02
 def exL : Cand := { uid := 1, ty := 1, net := 0, addr := 16, prio := 100 }
 def exR : Cand := { uid := 2, ty := 1, net := 0, addr := 33, prio := 90 }
 /-- a started controlling agent with one local, one remote, one in-progress pair and one transaction
-(id 2, sent at t = 1000 to address 33 over udp4) in flight -/
+(id 2, sent at t = 1000 from address 16 to address 33 over udp4) in flight -/
 def exA : Agent := {
   started := true
   localUfrag := "lu"
@@ -36,7 +36,7 @@ def exA : Agent := {
   nextPairID := 1
   controlling := true
   connState := .checking
-  pending := [{ tid := 2, dest := 33, net := 0, useCand := false, nom := none, ts := 1000 }]
+  pending := [{ tid := 2, src := 16, dest := 33, net := 0, useCand := false, nom := none, ts := 1000 }]
   nextTid := 2 }
 /-- a correct success response to that transaction -/
 def goodResp : Msg := { cls := 2, tid := 2, key := some "rp" }
@@ -88,8 +88,8 @@ example : exA.findRemote 1 33 = none := by decide   -- known address, other netw
 
 /-- A correctly signed success response from a known remote `r` whose transaction id has no outstanding
 entry (`outstanding a now m.tid`: the first pending entry with this id that survives the 4 s expiry),
-or whose outstanding entry was sent over another network type or to another address than the response
-came from: nothing is emitted and the state is `a` except that expired entries and the entry with this
+or whose outstanding entry was sent over another network type, or to another address than the response
+came from, or from another local address than the one the response arrived on: nothing is emitted and the state is `a` except that expired entries and the entry with this
 id leave `pending` and `r.lastRecv` is refreshed.  (`pendingAfter` is a sub-list of `a.pending`.) -/
 theorem C02_response_needs_outstanding (a : Agent) (now : Nat) (l : Cand) (src : Nat) (m : Msg) (r : Cand)
     (hc : m.cls = 2) (hm : m.method = 1) (hk : m.key = some a.remotePwd)
@@ -118,12 +118,13 @@ theorem C02_response_needs_outstanding_fields (a : Agent) (now : Nat) (l : Cand)
   exact ⟨rfl, rfl, rfl, rfl, rfl, rfl, rfl, rfl, pendingAfter_sublist a now m.tid, rfl, rfl, rfl⟩
 
 /-- A form of the hypothesis that does not mention "the first" entry: EVERY unexpired pending entry with
-this transaction id was sent on another network type or to another address (in particular: there is
-none). -/
+this transaction id was sent on another network type, to another address or from another local address (in
+particular: there is none). -/
 theorem C02_response_needs_outstanding_all (a : Agent) (now : Nat) (l : Cand) (src : Nat) (m : Msg) (r : Cand)
     (hc : m.cls = 2) (hm : m.method = 1) (hk : m.key = some a.remotePwd)
     (hr : a.findRemote l.net src = some r)
-    (h : ∀ pd ∈ a.pending, pd.tid = m.tid → now - pd.ts < 4000000000 → pd.net ≠ l.net ∨ pd.dest ≠ src) :
+    (h : ∀ pd ∈ a.pending, pd.tid = m.tid → now - pd.ts < 4000000000 →
+      pd.net ≠ l.net ∨ pd.dest ≠ src ∨ pd.src ≠ l.addr) :
     a.handleInbound now l src m
       = (({ a with pending := pendingAfter a now m.tid } : Agent).seenRemoteRecv r.uid now, []) := by
   apply C02_response_needs_outstanding a now l src m r hc hm hk hr
@@ -153,7 +154,9 @@ example : NoSymmetricOutstanding exA 4000001000 exL 33 2 := by decide
 example : ¬ NoSymmetricOutstanding exA 2000 exL 33 2 := by decide
 example : NoSymmetricOutstanding exA 2000 { exL with net := 1 } 33 2 := by decide
 -- and with a different pending destination the wrong-source case
-example : NoSymmetricOutstanding { exA with pending := [{ tid := 2, dest := 49, net := 0, useCand := false, nom := none, ts := 1000 }] } 2000 exL 33 2 := by decide
+example : NoSymmetricOutstanding { exA with pending := [{ tid := 2, src := 16, dest := 49, net := 0, useCand := false, nom := none, ts := 1000 }] } 2000 exL 33 2 := by decide
+-- the request left from another local address (32) than the one the response arrives on (16): F17's case
+example : NoSymmetricOutstanding { exA with pending := [{ tid := 2, src := 32, dest := 33, net := 0, useCand := false, nom := none, ts := 1000 }] } 2000 exL 33 2 := by decide
 
 /-! ## Other classes and methods; indications -/
 
@@ -362,7 +365,7 @@ theorem C02_tid_source (a : Agent) (now : Nat) (l r : Cand) (uc : Bool) (nom : O
   · split <;> rfl
   · intro pd h
     have h' : pd ∈ (a.invalidatePending now).pending ++
-        [{ tid := 2 * a.nextTid + a.tag, dest := r.addr, net := r.net, useCand := uc, nom := nom, ts := now }] := by
+        [{ tid := 2 * a.nextTid + a.tag, src := l.addr, dest := r.addr, net := r.net, useCand := uc, nom := nom, ts := now }] := by
       revert h
       split <;> exact id
     rcases List.mem_append.mp h' with h | h
@@ -417,11 +420,24 @@ theorem C02_class_gate_model (a : Agent) (now : Nat) (l : Cand) (src : Nat) (m :
   apply handleInbound_gate
   rw [IceTie.AgentInbound.gate_eq_code m method cls hm hc, h]
 
-/-- `responseSymmetric` of selection.go, regenerated from the source: same network type ∧ same address —
-the test `pd.net == l.net && pd.dest == src` of the model's `handleSuccess`. -/
-theorem C02_symmetry_code (sameNet sameAddr : Bool) :
-    IceGen.responseSymmetric sameNet sameAddr = (sameNet && sameAddr) :=
-  IceTie.AgentInbound.responseSymmetric_tie sameNet sameAddr
+/-- `responseSymmetric` of selection.go, regenerated from the source: same network type ∧ the response comes
+from the request's destination ∧ (no source recorded ∨ the response arrived on the request's source address)
+(RFC 8445 §7.2.5.2.1, both halves; fix of F17). -/
+theorem C02_symmetry_code (sameNet sameAddr hasSource sameSource : Bool) :
+    IceGen.responseSymmetric sameNet sameAddr hasSource sameSource
+      = (sameNet && sameAddr && (!hasSource || sameSource)) :=
+  IceTie.AgentInbound.responseSymmetric_tie sameNet sameAddr hasSource sameSource
+
+/-- … and for a request recorded by `sendBindingRequest` (source always recorded) it is the test
+`pd.net == l.net && pd.dest == rsrc && pd.src == l.addr` of the model's `handleSuccess` (`rsrc` = source of the
+response, `l` = local candidate it arrived on, `pd` = the pending transaction). -/
+theorem C02_symmetry_code_model (pd : Pending) (l : Cand) (rsrc : Nat) :
+    IceGen.responseSymmetric (pd.net == l.net) (pd.dest == rsrc) true (pd.src == l.addr)
+      = (pd.net == l.net && pd.dest == rsrc && pd.src == l.addr) :=
+  IceTie.AgentInbound.responseSymmetric_model pd l rsrc
+
+example : IceGen.responseSymmetric true true true false = false := by decide
+example : IceGen.responseSymmetric true true false false = true := by decide
 
 example : IceGen.canHandleInbound 1 3 = false := by decide
 example : IceGen.canHandleInbound 1 2 = true := by decide
